@@ -44,18 +44,18 @@ func (H) Tune(prop string, plan any, cfg *simrt.Config) {
 
 // FSPlan is one C17 workload case; all its crash points and error points are enumerated.
 type FSPlan struct {
-	Prim     string `json:"prim"` // writefile tempfile symlink createatomic copyatomic replaceatomic fstreeput
-	Dest     int    `json:"dest"` // 0 absent, 1 present, 2 present with other mode
-	OldSize  int    `json:"old_size"`
-	NewSize  int    `json:"new_size"`
-	Explicit bool   `json:"explicit_tmp,omitempty"` // caller-specified temp dir
-	Readers  int    `json:"readers"`
-	Twin     bool   `json:"twin,omitempty"` // additionally two overlapping calls (no faults): unpackzip: the same archive; file primitives: two writers with different content for the same destination
-	Corrupt  bool   `json:"corrupt,omitempty"` // unpackzip: additionally an archive one of whose entries is cut off: nothing may be published
-	corruptArchive bool // set on a copy of the plan while the damaged archive is prepared
-	BadTmp   bool   `json:"bad_tmp,omitempty"` // the explicitly given temporary directory does not exist
-	Mode     int    `json:"mode,omitempty"` // requested mode index
-	Net      []int  `json:"net,omitempty"`  // fetch: behaviour of the download transport per attempt (0 ok, 1 truncated body, 2 error mid-body, 3 status 500, 4 body longer than announced, 5 unknown length and connection dropped half way)
+	Prim           string `json:"prim"` // writefile tempfile symlink createatomic copyatomic replaceatomic fstreeput
+	Dest           int    `json:"dest"` // 0 absent, 1 present, 2 present with other mode
+	OldSize        int    `json:"old_size"`
+	NewSize        int    `json:"new_size"`
+	Explicit       bool   `json:"explicit_tmp,omitempty"` // caller-specified temp dir
+	Readers        int    `json:"readers"`
+	Twin           bool   `json:"twin,omitempty"`    // additionally two overlapping calls (no faults): unpackzip: the same archive; file primitives: two writers with different content for the same destination
+	Corrupt        bool   `json:"corrupt,omitempty"` // unpackzip: additionally an archive one of whose entries is cut off: nothing may be published
+	corruptArchive bool   // set on a copy of the plan while the damaged archive is prepared
+	BadTmp         bool   `json:"bad_tmp,omitempty"` // the explicitly given temporary directory does not exist
+	Mode           int    `json:"mode,omitempty"`    // requested mode index
+	Net            []int  `json:"net,omitempty"`     // fetch: behaviour of the download transport per attempt (0 ok, 1 truncated body, 2 error mid-body, 3 status 500, 4 body longer than announced, 5 unknown length and connection dropped half way)
 }
 
 var sizes = []int{0, 1, 4096, 200000, 3 << 20}
